@@ -284,7 +284,7 @@ def clitrace(run, fams, only=None):
                     text = json.loads(json.loads(l.strip()[len('<<"R", '):-2]))['text']
                 except Exception:
                     continue
-                if not any(ch in text for ch in '~^|%$@`#'):      # ASCII programs only (TLC prints the place-holders, not the characters)
+                if not any(ch in text for ch in '~^|%$@`#\\'):      # ASCII programs only (TLC prints the place-holders, not the characters)
                     out.write(l)
                     n += 1
             os.remove(o)
